@@ -43,6 +43,10 @@ func EqualVals(a []Value, b []Value) bool {
 
 func CompareVals(a []Value, b []Value) int {
 	for i, v := range a {
+		if i >= len(b) {
+			// b is a proper prefix of a
+			return 1
+		}
 		c := v.(Comparable).Compare(b[i].(Comparable))
 		if c < 0 {
 			return c
@@ -50,6 +54,10 @@ func CompareVals(a []Value, b []Value) int {
 		if c > 0 {
 			return c
 		}
+	}
+	if len(a) < len(b) {
+		// a is a proper prefix of b
+		return -1
 	}
 	return 0
 }
